@@ -159,6 +159,11 @@ class Server(object):
         sock.setblocking(True)
         self.logger.info("accepted %s with fd %s", addrinfo, sock.fileno())
         self.clients.add(sock)
+        if self._closed:
+            # close() ran while this connection was being accepted and may have missed the socket
+            self.clients.discard(sock)
+            sock.close()
+            return
         self._accept_method(sock)
 
     def _accept_method(self, sock):
